@@ -250,8 +250,64 @@ func (s *Sim) doRelays(st *Step) {
 		}
 		key := header.HashString() + "/" + s.key(servicer).String()
 		s.served[key]++
+		if len(s.pastServed) == 0 || s.pastServed[len(s.pastServed)-1].session != sh {
+			s.pastServed = append(s.pastServed, servedTuple{app: appKey, chain: chain, session: sh, servicer: servicer, at: h})
+		}
 	}
 	s.res.Case(fmt.Sprintf("relays/n=%d/mut=%v", n, st.Action != ""))
+	s.staleRelayThroughQueryRoute(sh)
+}
+
+// setMetaHeight gives a relay another client-side block height; the request hash covers it, and
+// the client signature covers the request hash.
+func (s *Sim) setMetaHeight(r *pc.Relay, clientKey int, h int64) {
+	r.Meta.BlockHeight = h
+	r.Proof.Signature = ""
+	r.Proof.RequestHash = r.RequestHashString()
+	sig, _ := KeyFor(s.cfg.KeySeed, clientKey).Sign(r.Proof.Hash())
+	r.Proof.Signature = hex.EncodeToString(sig)
+}
+
+type servedTuple struct {
+	app, servicer int
+	chain         string
+	session, at   int64
+}
+
+// staleRelayThroughQueryRoute (C35): the relay service is also registered as an ABCI query
+// (custom/pocketcore/relay), and an ABCI query names the height it wants to be answered at. A fresh
+// relay for a session of the past, offered through that route at a height of that session, must be
+// refused like the same relay offered to the node directly: the session is no longer the latest.
+func (s *Sim) staleRelayThroughQueryRoute(currentSession int64) {
+	for _, t := range s.pastServed {
+		if t.session >= currentSession || s.viewAt(t.at) == nil {
+			continue
+		}
+		s.relayEntropy++
+		relay := s.makeRelay(t.app, t.chain, t.session, t.servicer, s.relayEntropy, "")
+		s.setMetaHeight(&relay, t.app, t.at)
+		_, _, direct := s.node.App.HandleRelay(relay)
+		if direct == nil {
+			return // the node itself still takes it (tolerances allow it): nothing to compare
+		}
+		s.relayEntropy++
+		relay = s.makeRelay(t.app, t.chain, t.session, t.servicer, s.relayEntropy, "")
+		s.setMetaHeight(&relay, t.app, t.at)
+		header := pc.SessionHeader{ApplicationPubKey: KeyFor(s.cfg.KeySeed, t.app).PublicKey().RawString(), Chain: t.chain, SessionBlockHeight: t.session}
+		before, _ := s.evidenceCount(t.servicer, header)
+		bz, err := pc.ModuleCdc.MarshalJSON(pc.QueryRelayParams{Relay: relay})
+		if err != nil {
+			return
+		}
+		r := s.node.App.Query(abci.RequestQuery{Path: "custom/pocketcore/relay", Data: bz, Height: t.at})
+		after, _ := s.evidenceCount(t.servicer, header)
+		s.res.Fault("relay_for_a_past_session_through_the_query_route")
+		s.res.Tracef("   stale-relay-via-query h=%d at=%d session=%d code=%d/%s log=%.200s direct=%v", s.drv.Height, t.at, t.session, r.Code, r.Codespace, r.Log, direct)
+		if r.Code == 0 || after != before {
+			s.violate("C35", "relay-for-a-past-session-served", "query-route-at-a-past-height", fmt.Sprintf("height %d: a relay for session height %d (the latest session starts at %d), refused by the node when offered directly (%v), was answered with code %d through the ABCI query custom/pocketcore/relay at height %d; stored evidence %d -> %d", s.drv.Height, t.session, currentSession, firstWord(direct.Error()), r.Code, t.at, before, after))
+		}
+		return
+	}
 }
 
 func firstWord(s string) string {
